@@ -162,6 +162,17 @@ def cases(pool, rng, tier):
                 "links": [("in/lnk", "../real/r")], "argv_in_extra": ["../in/lnk"], "argv": ["-t", "lcov", "-o", "../out/o.lcov"], "out": "out/o.lcov"})
     out.append({"inputs": [{"kind": "dir", "name": "d", "entries": [["x.info", n["info_a"], "info"]], "links": [["l.info", "../../real/t.info", None], ["sub", "../../real", None]]}],
                 "argv": ["-t", "html", "-o", "../out/html"], "out": "out/html"})
+    # recorded ABSOLUTE source paths that exist: canonical, and through a symbolic link to a directory (link -> real); html without -s
+    foo = pool.add("foo_c", b"int foo(void) { return 1; }\n")
+    via = pool.add("info_via_link", L.lcov(b"@SB@/link/src/foo.c", [(1, 1)]) + L.lcov(b"@SB@/real/src/other.c", [(1, 2)]) + L.lcov(b"src/bar.c", [(1, 3)])
+                   + L.lcov(b"@SB@/work/lnk2/foo.c", [(1, 4)]))
+    srcs = [{"kind": "hidden", "arg": {"kind": "dir", "name": "../real/src", "entries": [["foo.c", foo, "c"], ["other.c", foo, "c"]]}},
+            {"kind": "hidden", "arg": {"kind": "dir", "name": "../work/src", "entries": [["bar.c", foo, "c"]]}},
+            {"kind": "plain", "name": "cov.info", "blob": via}]
+    for argv, o, pre in OUTPUTS:
+        for more in ([], ["--branch", "--threads", "2"]):
+            if "html" in argv[1] or not more:
+                out.append({"inputs": srcs, "links": [("link", "real"), ("work/lnk2", "../link/src")], "argv": argv + more, "out": o, "pre_out": pre, "tag": "abs-via-symlink"})
     # hostile archives
     long = "d" * 100 + "/" + "e" * 100 + "/" + "f" * 90
     hostile_sets = [
@@ -172,6 +183,15 @@ def cases(pool, rng, tier):
         ("inside", [("a/../b.gcno", n["gcc_gcno_main"]), ("a/../b.gcda", n["gcc_gcda_main"]), ("./c.gcno", n["gcc_gcno_orphan"])], [("a/../b.gcno", "b_1.gcno"), ("a/../b.gcda", "b_1.gcda"), ("./c.gcno", "c_1.gcno")], []),
         ("long", [(long + ".gcno", n["gcc_gcno_main"]), (long + ".gcda", n["gcc_gcda_main"])], [(long + ".gcno", "f" * 90 + "_1.gcno"), (long + ".gcda", "f" * 90 + "_1.gcda")], []),
         ("duplicates", [("m.gcno", n["gcc_gcno_main"]), ("m.gcda", n["gcc_gcda_main"]), ("m.gcda", n["gcda_lonely"]), ("m.gcno", n["gcc_gcno_orphan"])], [("m.gcno", "m_1.gcno"), ("m.gcda", "m_1.gcda")], []),
+        # '..' in the MIDDLE of the name, climbing exactly to the sandbox root (tmp/.tmpX/obj/../../../canary = <sandbox>/canary), every extracted kind
+        ("mid-gcno-gcda", [("obj/../../../canary/m.gcno", n["gcc_gcno_main"]), ("obj/../../../canary/m.gcda", n["gcc_gcda_main"])],
+         [("obj/../../../canary/m.gcno", "m_1.gcno"), ("obj/../../../canary/m.gcda", "m_1.gcda")], []),
+        ("mid-orphan-gcno", [("a/b/../../../../canary/mid/o.gcno", n["gcc_gcno_orphan"])], [("a/b/../../../../canary/mid/o.gcno", "o_1.gcno")], []),
+        ("mid-gcda-only", [("ok/m.gcno", n["gcc_gcno_main"]), ("ok/m.gcda", n["gcc_gcda_main"]), ("ok/../../../canary/ok/m.gcda", n["gcc_gcda_main"]), ("ok/../../../canary/ok/m.gcno", n["gcc_gcno_main"])],
+         [("ok/m.gcno", "m_1.gcno"), ("ok/m.gcda", "m_1.gcda"), ("ok/../../../canary/ok/m.gcda", "m_1.gcda"), ("ok/../../../canary/ok/m.gcno", "m_1.gcno")], []),
+        ("mid-profraw", [("good.info", n["info_a"]), ("obj/../../../canary/escaped.profraw", n["profraw_1"])], [("obj/../../../canary/escaped.profraw", "escaped_1.profraw")], []),
+        ("mid-profdata", [("obj/./../../../canary/e.profdata", n["profraw_2"]), ("x/../y.profdata", n["profraw_1"])],
+         [("obj/./../../../canary/e.profdata", "e_1.profdata"), ("x/../y.profdata", "y_1.profdata")], ["-b", "../canary"]),
         ("info-names", [("../../canary/i.info", n["info_a"]), ("@SB@/canary/j.xml", n["xml_1"])], [], []),
     ]
     for tag, members, hostile, extra in hostile_sets:
@@ -179,9 +199,12 @@ def cases(pool, rng, tier):
         for argv, o, pre in (OUTPUTS[:2] if tier == "quick" else OUTPUTS[:4]):
             out.append({"inputs": [arg], "argv": extra + argv, "out": o, "pre_out": pre, "hostile": hostile, "tag": tag})
         # with --llvm the gcno/gcda members are read into buffers: nothing may be written at all
-        if tag in ("dotdot", "absolute"):
+        if tag in ("dotdot", "absolute", "mid-gcno-gcda", "mid-gcda-only"):
             arg2 = {"kind": "zip", "name": tag + ".zip", "entries": [[m, n["llvm_gcno_file"] if m.endswith("gcno") else n["llvm_gcda_file"], "x"] for m, _ in members]}
             out.append({"inputs": [arg2], "argv": ["--llvm", "-t", "lcov", "-o", "../out/o.lcov"], "out": "out/o.lcov", "tag": tag + "-llvm"})
+        if tag in ("mid-profraw", "mid-profdata", "profraw"):
+            # profiles are extracted with --llvm as well
+            out.append({"inputs": [arg], "argv": ["--llvm"] + extra + ["-t", "lcov", "-o", "../out/o.lcov"], "out": "out/o.lcov", "hostile": hostile, "tag": tag + "-llvm"})
     return out
 
 
